@@ -1,17 +1,1699 @@
-//! Engine `cache` — placeholder (not written yet).
+//! Engine `cache` (C16): the real `HttpSymbolSupplier` against a scripted loopback HTTP/1.1 server.
+//!
+//! case line:
+//!   `cache m:<mod> pre:<pre> fs:<fs> r:<resp>[|<resp>…] drop:<-|all|k> race:<0|1>`
+//!     mod  : index into `MODULES` (debug file / debug id / code file / code id)
+//!     pre  : what sits at the module's cache path before the call
+//!            `-` | `valid` | `validurl` | `corrupt` | `trunc` | `dir` | `special` (symlink to /dev/null) | `dangling` | `local`
+//!            (`local`: the file is in a separate local symbol path, the cache is empty)
+//!     fs   : `-` | `tmpmissing` | `cachefile` | `subfile` | `rotmp` | `rocache` | `roleaf`
+//!            (the `ro*` modes use chmod and are skipped-and-counted when permissions do not bite, i.e. as root)
+//!     resp : `<status>/<framing>/<cut>/<pace>/<split>/<body>`   one per configured server URL, in order
+//!            framing `len|chunked|close`; cut `-` or the number of body bytes after which the connection is closed;
+//!            pace = microseconds between pieces; split `w` (one piece) | `l` (line by line) | `s<seed>` (random pieces)
+//!            body `g<seed>.<lines>[+c<j>][+t][+u][+o][+M<k>][+L<k>]` (generated; `+c<j>` line j made unparseable, `+t` final newline removed,
+//!                 `+u` contains its own INFO URL line, `+o` ends inside an open FUNC item, `+M<k>` a terminated line of k bytes after
+//!                 the MODULE line, `+L<k>` an unterminated last line of k bytes) | `e` (empty) | `x<hex>`
+//!     drop : `-` run to completion | `k` drop the future after k polls | `all` completion, then every poll boundary in turn
+//!     race : `1` = two concurrent calls for the same module (needs exactly two resps, one server each): the second call
+//!            passes its cache lookup, then the first runs to completion, then the second finishes
+//!
+//! canonical output (compared with the Lean model `MdModel.CacheFs`):
+//!   `cache:<node> tmp:<n> r:<res[;res]> req:<log[;log]> second:<res> drops:<clean|dirty|->`
+//! where `127.0.0.1:<port>` is rewritten to `HOST` in file contents and URLs.
+
 use crate::common::*;
+use breakpad_symbols::{HttpSymbolSupplier, SimpleModule, SymbolError, SymbolFile, SymbolSupplier};
+use std::collections::BTreeMap;
+use std::future::Future;
+use std::io::{Read, Write};
+use std::net::{Shutdown, TcpListener, TcpStream};
+use std::path::{Path, PathBuf};
+use std::pin::Pin;
+use std::str::FromStr;
+use std::sync::atomic::{AtomicBool, AtomicU64, Ordering};
+use std::sync::{Arc, Mutex};
+use std::task::Poll;
+use std::time::Duration;
 
 pub struct Cache;
+
+static COUNTER: AtomicU64 = AtomicU64::new(0);
+
+fn verif() -> PathBuf {
+    let exe = std::env::current_exe().unwrap();
+    exe.ancestors().nth(4).unwrap().to_path_buf()
+}
+fn scratch_root() -> PathBuf {
+    let d = verif().join(".scratch/cache").join(std::process::id().to_string());
+    std::fs::create_dir_all(&d).unwrap();
+    d
+}
+
+/// (debug_file, debug_id (breakpad form), code_file, code_id, cache_rel, url path+query below the server prefix)
+struct Mod {
+    debug_file: &'static str,
+    debug_id: &'static str,
+    code_file: &'static str,
+    code_id: Option<&'static str>,
+    cache_rel: &'static str,
+    server_rel: &'static str,
+}
+const MODULES: &[Mod] = &[
+    Mod {
+        debug_file: "a.pdb",
+        debug_id: "5A9832E5287241C1838ED98914E9B7FF1",
+        code_file: "a.dll",
+        code_id: Some("5ea1b0c4ab000"),
+        cache_rel: "a.pdb/5A9832E5287241C1838ED98914E9B7FF1/a.sym",
+        server_rel: "a.pdb/5A9832E5287241C1838ED98914E9B7FF1/a.sym?code_file=a.dll&code_id=5ea1b0c4ab000",
+    },
+    Mod {
+        debug_file: "libfoo.so",
+        debug_id: "0123456789ABCDEF0123456789ABCDEF0",
+        code_file: "/usr/lib/libfoo.so",
+        code_id: Some("abcdef0123456789"),
+        cache_rel: "libfoo.so/0123456789ABCDEF0123456789ABCDEF0/libfoo.so.sym",
+        server_rel: "libfoo.so/0123456789ABCDEF0123456789ABCDEF0/libfoo.so.sym?code_file=libfoo.so&code_id=abcdef0123456789",
+    },
+    Mod {
+        debug_file: "/build/out/My_App-1.2",
+        debug_id: "FFFFFFFFFFFFFFFFFFFFFFFFFFFFFFFFa",
+        code_file: "My_App-1.2",
+        code_id: None,
+        cache_rel: "My_App-1.2/FFFFFFFFFFFFFFFFFFFFFFFFFFFFFFFFa/My_App-1.2.sym",
+        server_rel: "My_App-1.2/FFFFFFFFFFFFFFFFFFFFFFFFFFFFFFFFa/My_App-1.2.sym?code_file=My_App-1.2&code_id=",
+    },
+];
+
+/// (cache_rel, server_rel) of the file a case is about
+fn rels(m: &Mod, file: &str) -> (String, String) {
+    let debug_leaf = m.debug_file.rsplit('/').next().unwrap();
+    let bin_leaf = m.code_file.rsplit('/').next().unwrap();
+    match file {
+        "bin" => (format!("{debug_leaf}/{}/{bin_leaf}", m.debug_id), format!("{bin_leaf}/{}/{bin_leaf}", m.code_id.unwrap_or(""))),
+        "pdb" => (format!("{debug_leaf}/{}/{debug_leaf}", m.debug_id), format!("{debug_leaf}/{}/{debug_leaf}", m.debug_id)),
+        _ => (m.cache_rel.to_string(), m.server_rel.to_string()),
+    }
+}
+
+fn module(m: &Mod) -> SimpleModule {
+    SimpleModule::from_basic_info(
+        Some(m.debug_file.to_string()),
+        Some(debugid::DebugId::from_breakpad(m.debug_id).expect("debug id")),
+        Some(m.code_file.to_string()),
+        m.code_id.map(|c| debugid::CodeId::from_str(c).expect("code id")),
+    )
+}
+
+// ------------------------------------------------------------------------------------------ case
+
+#[derive(Clone, Copy, PartialEq, Eq, Debug)]
+enum Framing {
+    Len,
+    Chunked,
+    Close,
+}
+
+#[derive(Clone, Debug)]
+struct RespSpec {
+    status: u16,
+    framing: Framing,
+    cut: Option<usize>,
+    pace_us: u64,
+    split: String,
+    body: String,
+}
+
+#[derive(Clone, Debug)]
+struct Case {
+    m: usize,
+    pre: String,
+    fs: String,
+    resps: Vec<RespSpec>,
+    drop: String,
+    race: bool,
+    /// `sym` (locate_symbols), or `bin` / `pdb` (locate_file: the opaque download path `fetch_lookup`)
+    file: String,
+}
+
+fn parse_resp(s: &str) -> Option<RespSpec> {
+    let f: Vec<&str> = s.split('/').collect();
+    if f.len() != 6 {
+        return None;
+    }
+    Some(RespSpec {
+        status: f[0].parse().ok()?,
+        framing: match f[1] {
+            "len" => Framing::Len,
+            "chunked" => Framing::Chunked,
+            "close" => Framing::Close,
+            _ => return None,
+        },
+        cut: if f[2] == "-" { None } else { Some(f[2].parse().ok()?) },
+        pace_us: f[3].parse().ok()?,
+        split: f[4].to_string(),
+        body: f[5].to_string(),
+    })
+}
+fn show_resp(r: &RespSpec) -> String {
+    format!(
+        "{}/{}/{}/{}/{}/{}",
+        r.status,
+        match r.framing {
+            Framing::Len => "len",
+            Framing::Chunked => "chunked",
+            Framing::Close => "close",
+        },
+        r.cut.map(|k| k.to_string()).unwrap_or("-".into()),
+        r.pace_us,
+        r.split,
+        r.body
+    )
+}
+
+fn parse_case(case: &str) -> Option<Case> {
+    let f: Vec<&str> = case.split(' ').filter(|s| !s.is_empty()).collect();
+    if (f.len() != 7 && f.len() != 8) || f[0] != "cache" {
+        return None;
+    }
+    let file = if f.len() == 8 { f[7].strip_prefix("file:")?.to_string() } else { "sym".to_string() };
+    if !["sym", "bin", "pdb"].contains(&file.as_str()) {
+        return None;
+    }
+    let m: usize = f[1].strip_prefix("m:")?.parse().ok()?;
+    if m >= MODULES.len() {
+        return None;
+    }
+    let pre = f[2].strip_prefix("pre:")?.to_string();
+    if !["-", "valid", "validurl", "corrupt", "trunc", "dir", "special", "dangling", "local"].contains(&pre.as_str()) {
+        return None;
+    }
+    let fs = f[3].strip_prefix("fs:")?.to_string();
+    if !["-", "tmpmissing", "cachefile", "subfile", "rotmp", "rocache", "roleaf"].contains(&fs.as_str()) {
+        return None;
+    }
+    let r = f[4].strip_prefix("r:")?;
+    let resps: Vec<RespSpec> = if r == "-" { vec![] } else { r.split('|').map(parse_resp).collect::<Option<Vec<_>>>()? };
+    let drop = f[5].strip_prefix("drop:")?.to_string();
+    if drop != "-" && drop != "all" && drop.parse::<usize>().is_err() {
+        return None;
+    }
+    let race = match f[6].strip_prefix("race:")? {
+        "0" => false,
+        "1" => true,
+        _ => return None,
+    };
+    if race && (resps.len() != 2 || drop != "-" || file != "sym") {
+        return None;
+    }
+    if file != "sym" && (MODULES[m].code_id.is_none() || !["-", "dir", "special", "dangling"].contains(&pre.as_str())) {
+        return None;
+    }
+    Some(Case { m, pre, fs, resps, drop, race, file })
+}
+fn show_case(c: &Case) -> String {
+    format!(
+        "cache m:{} pre:{} fs:{} r:{} drop:{} race:{}{}",
+        c.m,
+        c.pre,
+        c.fs,
+        if c.resps.is_empty() { "-".to_string() } else { c.resps.iter().map(show_resp).collect::<Vec<_>>().join("|") },
+        c.drop,
+        if c.race { 1 } else { 0 },
+        if c.file == "sym" { String::new() } else { format!(" file:{}", c.file) }
+    )
+}
+
+// ------------------------------------------------------------------------------------------ bodies
+
+/// A generated, valid Breakpad symbol file of `n` lines (every line ends in `\n`).
+fn gen_body(seed: u64, n: usize, m: &Mod, own_url: bool, open_func: bool) -> Vec<Vec<u8>> {
+    let mut rng = Rng::new(seed ^ 0xC16);
+    let leaf = m.debug_file.rsplit('/').next().unwrap();
+    let mut lines: Vec<Vec<u8>> = vec![format!("MODULE Linux x86_64 {} {}", m.debug_id, leaf).into_bytes()];
+    let mut addr: u64 = 0x1000;
+    let mut file_id = 0u32;
+    while lines.len() < n.max(1) {
+        let left = n - lines.len();
+        match rng.below(10) {
+            0 => lines.push(format!("INFO CODE_ID {:X} {}", rng.below(1 << 40), leaf).into_bytes()),
+            1 => {
+                lines.push(format!("FILE {} src/dir{}/f{}.c", file_id, rng.below(9), rng.below(1000)).into_bytes());
+                file_id += 1;
+            }
+            2 | 3 | 4 => {
+                let size = rng.range(4, 64) * 4;
+                lines.push(format!("FUNC {:x} {:x} {:x} fn_{}::<T{}>", addr, size, rng.below(3) * 4, rng.below(10000), rng.below(99)).into_bytes());
+                let k = rng.below(4).min(left.saturating_sub(1) as u64);
+                let mut a = addr;
+                for _ in 0..k {
+                    lines.push(format!("{:x} {:x} {} {}", a, 4, rng.range(1, 5000), rng.below(file_id.max(1) as u64)).into_bytes());
+                    a += 4;
+                }
+                addr += size + rng.below(3) * 16;
+            }
+            5 => {
+                lines.push(format!("PUBLIC {:x} {:x} pub_{}", addr, rng.below(3) * 4, rng.below(10000)).into_bytes());
+                addr += 16;
+            }
+            6 => {
+                lines.push(format!("STACK CFI INIT {:x} {:x} .cfa: $rsp 8 + .ra: .cfa -8 + ^", addr, 32).into_bytes());
+                if left > 1 && rng.chance(1, 2) {
+                    lines.push(format!("STACK CFI {:x} .cfa: $rsp 16 + $rbp: .cfa -16 + ^", addr + 4).into_bytes());
+                }
+                addr += 32;
+            }
+            7 => {
+                lines.push(
+                    format!("STACK WIN 4 {:x} {:x} 1 0 {:x} 0 0 0 1 $T0 .raSearch = $eip $T0 ^ = $esp $T0 4 + =", addr, 16, rng.below(4) * 4).into_bytes(),
+                );
+                addr += 16;
+            }
+            8 => lines.push(format!("INLINE_ORIGIN {} inlined_{}", rng.below(50), rng.below(1000)).into_bytes()),
+            _ => {
+                if rng.chance(1, 3) {
+                    lines.push(vec![]) // blank line
+                } else {
+                    lines.push(format!("INFO GENERATOR mdharness {}", rng.below(100)).into_bytes())
+                }
+            }
+        }
+    }
+    lines.truncate(n.max(1));
+    if own_url {
+        // right after MODULE or at the very end (anywhere else it could split a FUNC from its line records)
+        let at = if rng.chance(1, 2) { 1 } else { lines.len() };
+        lines.insert(at, b"INFO URL http://elsewhere.example/old/location.sym".to_vec());
+    }
+    if open_func {
+        lines.push(format!("FUNC {:x} 10 0 last_function", addr + 0x100).into_bytes());
+    }
+    // CRLF on a few record lines (never on INFO lines)
+    for l in lines.iter_mut() {
+        if !l.starts_with(b"INFO") && !l.is_empty() && rng.chance(1, 12) {
+            l.push(b'\r');
+        }
+    }
+    lines
+}
+
+/// body bytes of a body spec (`None`: malformed spec)
+fn body_bytes(spec: &str, m: &Mod) -> Option<Vec<u8>> {
+    if spec == "e" {
+        return Some(vec![]);
+    }
+    if let Some(h) = spec.strip_prefix('x') {
+        return unhex(h);
+    }
+    let mut parts = spec.strip_prefix('g')?.split('+');
+    let head = parts.next()?;
+    let (seed, n) = head.split_once('.')?;
+    let seed: u64 = seed.parse().ok()?;
+    let n: usize = n.parse().ok()?;
+    let mut corrupt: Option<usize> = None;
+    let mut unterminated = false;
+    let mut own_url = false;
+    let mut open_func = false;
+    let mut long_tail: Option<usize> = None;
+    let mut long_mid: Option<usize> = None;
+    for p in parts {
+        if let Some(k) = p.strip_prefix('L') {
+            long_tail = Some(k.parse().ok()?);
+            continue;
+        }
+        if let Some(k) = p.strip_prefix('M') {
+            long_mid = Some(k.parse().ok()?);
+            continue;
+        }
+        if let Some(j) = p.strip_prefix('c') {
+            corrupt = Some(j.parse().ok()?);
+        } else if p == "t" {
+            unterminated = true;
+        } else if p == "u" {
+            own_url = true;
+        } else if p == "o" {
+            open_func = true;
+        } else {
+            return None;
+        }
+    }
+    let mut lines = gen_body(seed, n, m, own_url, open_func);
+    if let Some(j) = corrupt {
+        let j = j.min(lines.len() - 1);
+        let mut l = b"!corrupt ".to_vec();
+        l.extend_from_slice(&lines[j]);
+        lines[j] = l;
+    }
+    if let Some(k) = long_mid {
+        // a terminated PUBLIC line of k bytes in the middle (longer than the parser's window when k > 160 KiB)
+        let mut l = b"PUBLIC ffff0 0 ".to_vec();
+        l.resize(k.max(16), b'm');
+        // right after MODULE (further down it could separate a FUNC from its line records)
+        lines.insert(1, l);
+    }
+    let mut out = vec![];
+    for l in &lines {
+        out.extend_from_slice(l);
+        out.push(b'\n');
+    }
+    if unterminated {
+        out.pop();
+    }
+    if let Some(k) = long_tail {
+        // an UNTERMINATED last line of k bytes
+        let mut l = b"PUBLIC ffff8 0 ".to_vec();
+        l.resize(k.max(16), b'z');
+        out.extend_from_slice(&l);
+    }
+    Some(out)
+}
+
+/// the pieces in which the server writes `body[..cut]`
+fn pieces(body: &[u8], cut: Option<usize>, split: &str) -> Vec<Vec<u8>> {
+    let end = cut.map(|k| k.min(body.len())).unwrap_or(body.len());
+    let data = &body[..end];
+    if data.is_empty() {
+        return vec![];
+    }
+    match split.as_bytes()[0] {
+        b'l' => {
+            let mut out = vec![];
+            let mut cur = vec![];
+            for &b in data {
+                cur.push(b);
+                if b == b'\n' {
+                    out.push(std::mem::take(&mut cur));
+                }
+            }
+            if !cur.is_empty() {
+                out.push(cur);
+            }
+            // keep the number of pieces bounded
+            while out.len() > 48 {
+                let mut merged = vec![];
+                for pair in out.chunks(2) {
+                    merged.push(pair.concat());
+                }
+                out = merged;
+            }
+            out
+        }
+        b's' => {
+            let seed: u64 = split[1..].parse().unwrap_or(0);
+            let mut rng = Rng::new(seed ^ 0x5911);
+            let n = rng.range(2, 12) as usize;
+            let mut cuts: Vec<usize> = (0..n - 1).map(|_| rng.below(data.len() as u64 + 1) as usize).collect();
+            // bias: cut right after / right before a newline now and then
+            for c in cuts.iter_mut() {
+                if rng.chance(1, 3) {
+                    if let Some(p) = data[..*c].iter().rposition(|&b| b == b'\n') {
+                        *c = if rng.chance(1, 2) { p + 1 } else { p };
+                    }
+                }
+            }
+            cuts.push(0);
+            cuts.push(data.len());
+            cuts.sort();
+            cuts.dedup();
+            cuts.windows(2).map(|w| data[w[0]..w[1]].to_vec()).filter(|p| !p.is_empty()).collect()
+        }
+        _ => vec![data.to_vec()],
+    }
+}
+
+// ------------------------------------------------------------------------------------------ server
+
+struct Script {
+    status: u16,
+    framing: Framing,
+    full_len: usize,
+    cut: bool,
+    pace_us: u64,
+    pieces: Vec<Vec<u8>>,
+    gate: Option<Arc<AtomicBool>>,
+}
+
+struct Shared {
+    scripts: Mutex<BTreeMap<String, Arc<Script>>>,
+    log: Mutex<Vec<String>>,
+}
+
+/// One server per worker thread, alive for the whole run (a listener per case would exhaust the
+/// ephemeral ports: closed connections linger in TIME_WAIT). Runs register their scripts under
+/// unique path prefixes `r<rid>s<i>` / `r<rid>t<t>s0`.
+struct Server {
+    port: u16,
+    shared: Arc<Shared>,
+    stop: Arc<AtomicBool>,
+    thread: Mutex<Option<std::thread::JoinHandle<()>>>,
+}
+
+fn serve_one(mut s: TcpStream, shared: &Shared) {
+    let _ = s.set_nodelay(true);
+    let _ = s.set_read_timeout(Some(Duration::from_secs(20)));
+    let _ = s.set_write_timeout(Some(Duration::from_secs(20)));
+    let mut head = vec![];
+    let mut buf = [0u8; 2048];
+    while !head.windows(4).any(|w| w == b"\r\n\r\n") {
+        match s.read(&mut buf) {
+            Ok(0) | Err(_) => return,
+            Ok(n) => head.extend_from_slice(&buf[..n]),
+        }
+        if head.len() > 65536 {
+            return;
+        }
+    }
+    let text = String::from_utf8_lossy(&head).to_string();
+    let target = text.split(' ').nth(1).unwrap_or("").to_string();
+    shared.log.lock().unwrap().push(target.clone());
+    let prefix = target.trim_start_matches('/').split('/').next().unwrap_or("").to_string();
+    let sc = shared.scripts.lock().unwrap().get(&prefix).cloned();
+    let Some(sc) = sc else {
+        let _ = s.write_all(b"HTTP/1.1 404 Not Found\r\nConnection: close\r\nContent-Length: 0\r\n\r\n");
+        return;
+    };
+    if let Some(g) = &sc.gate {
+        let t0 = std::time::Instant::now();
+        while !g.load(Ordering::SeqCst) && t0.elapsed() < Duration::from_secs(25) {
+            std::thread::sleep(Duration::from_micros(200));
+        }
+    }
+    let mut headers = format!("HTTP/1.1 {} Scripted\r\nConnection: close\r\nContent-Type: text/plain\r\n", sc.status);
+    if sc.status >= 400 {
+        headers.push_str("Content-Length: 0\r\n\r\n");
+        let _ = s.write_all(headers.as_bytes());
+        return;
+    }
+    match sc.framing {
+        Framing::Len => headers.push_str(&format!("Content-Length: {}\r\n\r\n", sc.full_len)),
+        Framing::Chunked => headers.push_str("Transfer-Encoding: chunked\r\n\r\n"),
+        Framing::Close => headers.push_str("\r\n"),
+    }
+    if s.write_all(headers.as_bytes()).is_err() {
+        return;
+    }
+    let _ = s.flush();
+    for p in &sc.pieces {
+        if sc.pace_us > 0 {
+            std::thread::sleep(Duration::from_micros(sc.pace_us));
+        }
+        let r = match sc.framing {
+            Framing::Chunked => s
+                .write_all(format!("{:x}\r\n", p.len()).as_bytes())
+                .and_then(|_| s.write_all(p))
+                .and_then(|_| s.write_all(b"\r\n")),
+            _ => s.write_all(p),
+        };
+        if r.is_err() {
+            return;
+        }
+        let _ = s.flush();
+    }
+    if sc.framing == Framing::Chunked && !sc.cut {
+        let _ = s.write_all(b"0\r\n\r\n");
+    }
+    let _ = s.flush();
+    let _ = s.shutdown(Shutdown::Both);
+}
+
+impl Server {
+    fn start() -> Server {
+        let mut tries = 0;
+        let listener = loop {
+            match TcpListener::bind("127.0.0.1:0") {
+                Ok(l) => break l,
+                Err(e) => {
+                    tries += 1;
+                    if tries > 200 {
+                        panic!("bind loopback: {e:?}");
+                    }
+                    std::thread::sleep(Duration::from_millis(100));
+                }
+            }
+        };
+        let port = listener.local_addr().unwrap().port();
+        let shared = Arc::new(Shared { scripts: Mutex::new(BTreeMap::new()), log: Mutex::new(vec![]) });
+        let stop = Arc::new(AtomicBool::new(false));
+        let (shared2, stop2) = (shared.clone(), stop.clone());
+        let thread = std::thread::spawn(move || {
+            for conn in listener.incoming() {
+                if stop2.load(Ordering::SeqCst) {
+                    break;
+                }
+                if let Ok(s) = conn {
+                    let shared = shared2.clone();
+                    std::thread::spawn(move || serve_one(s, &shared));
+                }
+            }
+        });
+        Server { port, shared, stop, thread: Mutex::new(Some(thread)) }
+    }
+    /// request targets seen for run `rid`, with the run prefix removed (`/s0/…`, `/t1s0/…`)
+    fn log_of(&self, rid: u64) -> Vec<String> {
+        let pre = format!("/r{rid}");
+        self.shared
+            .log
+            .lock()
+            .unwrap()
+            .iter()
+            .filter_map(|t| t.strip_prefix(&pre).filter(|rest| rest.starts_with('s') || rest.starts_with('t')).map(|rest| format!("/{rest}")))
+            .collect()
+    }
+    fn forget(&self, rid: u64) {
+        let pre = format!("r{rid}");
+        let is_mine = |k: &str| k.strip_prefix(&pre).map(|r| r.starts_with('s') || r.starts_with('t')).unwrap_or(false);
+        self.shared.scripts.lock().unwrap().retain(|k, _| !is_mine(k));
+        self.shared.log.lock().unwrap().retain(|t| !is_mine(t.trim_start_matches('/')));
+    }
+}
+impl Drop for Server {
+    fn drop(&mut self) {
+        self.stop.store(true, Ordering::SeqCst);
+        let _ = TcpStream::connect(("127.0.0.1", self.port));
+        if let Some(t) = self.thread.lock().unwrap().take() {
+            let _ = t.join();
+        }
+    }
+}
+
+thread_local! {
+    static SERVER: std::cell::RefCell<Option<Arc<Server>>> = const { std::cell::RefCell::new(None) };
+}
+fn worker_server() -> Arc<Server> {
+    SERVER.with(|s| s.borrow_mut().get_or_insert_with(|| Arc::new(Server::start())).clone())
+}
+
+// ------------------------------------------------------------------------------------------ file system
+
+/// where a run's URLs point: the worker's server port and the run id (`http://127.0.0.1:<port>/r<rid>s<i>/…`);
+/// canonical form `http://HOST/s<i>/…`
+#[derive(Clone, Copy, Default)]
+struct Origin {
+    port: u16,
+    rid: u64,
+}
+
+/// (relative path → description) of every non-directory below `root`. Directories are not entries:
+/// `create_cache_file` makes `<cache>/<debug file>/<id>/` before the download starts and nobody
+/// removes it when the download fails (noted in notes/C16.md; an empty directory serves nothing).
+fn tree(root: &Path, port: Origin) -> BTreeMap<String, String> {
+    fn walk(dir: &Path, rel: &str, port: Origin, out: &mut BTreeMap<String, String>) {
+        let Ok(rd) = std::fs::read_dir(dir) else { return };
+        for e in rd.filter_map(|e| e.ok()) {
+            let name = e.file_name().to_string_lossy().to_string();
+            let r = if rel.is_empty() { name.clone() } else { format!("{rel}/{name}") };
+            let p = e.path();
+            let desc = node_at(&p, port);
+            if desc == "dir" {
+                walk(&p, &r, port, out);
+            } else {
+                out.insert(r, desc);
+            }
+        }
+    }
+    let mut out = BTreeMap::new();
+    if let Ok(md) = std::fs::symlink_metadata(root) {
+        if md.is_dir() {
+            walk(root, "", port, &mut out);
+        } else {
+            out.insert(".".into(), node_at(root, port));
+        }
+    }
+    out
+}
+
+fn canon(bytes: &[u8], port: Origin) -> Vec<u8> {
+    let needle = format!("127.0.0.1:{}/r{}", port.port, port.rid).into_bytes();
+    let mut out = Vec::with_capacity(bytes.len());
+    let mut i = 0;
+    while i < bytes.len() {
+        if bytes[i..].starts_with(&needle) {
+            out.extend_from_slice(b"HOST/");
+            i += needle.len();
+        } else {
+            out.push(bytes[i]);
+            i += 1;
+        }
+    }
+    out
+}
+fn canon_str(s: &str, port: Origin) -> String {
+    String::from_utf8_lossy(&canon(s.as_bytes(), port)).to_string()
+}
+
+fn node_at(p: &Path, port: Origin) -> String {
+    match std::fs::symlink_metadata(p) {
+        Err(_) => "none".into(),
+        Ok(md) => {
+            if md.file_type().is_symlink() {
+                match std::fs::metadata(p) {
+                    Err(_) => "dangling".into(),
+                    Ok(t) if !t.is_file() && !t.is_dir() => "special".into(),
+                    Ok(_) => "symlink".into(),
+                }
+            } else if md.is_dir() {
+                "dir".into()
+            } else if md.is_file() {
+                match std::fs::read(p) {
+                    Ok(b) => {
+                        let c = canon(&b, port);
+                        format!("file:{:016x}:{}", fnv64(&c), c.len())
+                    }
+                    Err(_) => "unreadable".into(),
+                }
+            } else {
+                "special".into()
+            }
+        }
+    }
+}
+
+/// do directory permissions stop this process from creating files? (not as root)
+fn permissions_bite() -> bool {
+    static CACHE: Mutex<Option<bool>> = Mutex::new(None);
+    let mut g = CACHE.lock().unwrap();
+    if let Some(v) = *g {
+        return v;
+    }
+    use std::os::unix::fs::PermissionsExt;
+    let d = scratch_root().join(format!("permtest{}", COUNTER.fetch_add(1, Ordering::Relaxed)));
+    let _ = std::fs::create_dir_all(&d);
+    let _ = std::fs::set_permissions(&d, std::fs::Permissions::from_mode(0o555));
+    let bites = std::fs::write(d.join("x"), b"x").is_err();
+    let _ = std::fs::set_permissions(&d, std::fs::Permissions::from_mode(0o755));
+    let _ = std::fs::remove_dir_all(&d);
+    *g = Some(bites);
+    bites
+}
+
+struct Dirs {
+    base: PathBuf,
+    cache: PathBuf,
+    tmp: PathBuf,
+    local: PathBuf,
+}
+impl Drop for Dirs {
+    fn drop(&mut self) {
+        use std::os::unix::fs::PermissionsExt;
+        // undo chmod so that the tree can be removed
+        for d in [&self.cache, &self.tmp] {
+            let _ = std::fs::set_permissions(d, std::fs::Permissions::from_mode(0o755));
+        }
+        fn fix(p: &Path) {
+            use std::os::unix::fs::PermissionsExt;
+            if let Ok(rd) = std::fs::read_dir(p) {
+                for e in rd.filter_map(|e| e.ok()) {
+                    if e.file_type().map(|t| t.is_dir()).unwrap_or(false) {
+                        let _ = std::fs::set_permissions(e.path(), std::fs::Permissions::from_mode(0o755));
+                        fix(&e.path());
+                    }
+                }
+            }
+        }
+        fix(&self.cache);
+        let _ = std::fs::remove_dir_all(&self.base);
+        // leave no empty per-process directory behind (fails harmlessly while other cases are running)
+        if let Some(root) = self.base.parent() {
+            let _ = std::fs::remove_dir(root);
+        }
+    }
+}
+
+/// the pre-existing symbol file (for `pre:valid|validurl|corrupt|trunc|local`)
+fn pre_bytes(pre: &str, m: &Mod) -> Vec<u8> {
+    let spec = match pre {
+        "corrupt" => "g7777.9+c4",
+        "trunc" => "g7777.9+t",
+        _ => "g7777.9",
+    };
+    let mut b = body_bytes(spec, m).unwrap();
+    if pre == "validurl" {
+        b.extend_from_slice(b"INFO URL http://HOST/earlier/download.sym\n");
+    }
+    b
+}
+
+fn setup_dirs(c: &Case, m: &Mod) -> Dirs {
+    use std::os::unix::fs::PermissionsExt;
+    let base = scratch_root().join(format!("c{}", COUNTER.fetch_add(1, Ordering::Relaxed)));
+    let d = Dirs { cache: base.join("cache"), tmp: base.join("tmp"), local: base.join("local"), base };
+    std::fs::create_dir_all(&d.base).unwrap();
+    std::fs::create_dir_all(&d.local).unwrap();
+    if c.fs == "cachefile" {
+        std::fs::write(&d.cache, b"not a directory\n").unwrap();
+    } else {
+        std::fs::create_dir_all(&d.cache).unwrap();
+    }
+    if c.fs != "tmpmissing" {
+        std::fs::create_dir_all(&d.tmp).unwrap();
+    }
+    let final_path = d.cache.join(rels(m, &c.file).0);
+    let leaf_dir = final_path.parent().unwrap().to_path_buf();
+    if c.fs == "subfile" {
+        // <cache>/<debug file> is a regular file: create_dir_all(<cache>/<debug file>/<id>) fails
+        std::fs::write(leaf_dir.parent().unwrap(), b"in the way\n").unwrap();
+    }
+    if c.fs != "cachefile" && c.fs != "subfile" {
+        match c.pre.as_str() {
+            "valid" | "validurl" | "corrupt" | "trunc" => {
+                std::fs::create_dir_all(&leaf_dir).unwrap();
+                std::fs::write(&final_path, pre_bytes(&c.pre, m)).unwrap();
+            }
+            "dir" => std::fs::create_dir_all(&final_path).unwrap(),
+            "special" => {
+                std::fs::create_dir_all(&leaf_dir).unwrap();
+                // a symlink to a character device: `exists()` is true, it is neither a regular file nor a
+                // directory for `fs::metadata`, and `remove_file` removes the link. (Not a fifo: a mutated
+                // implementation that opens the final path for writing would block on it forever.)
+                std::os::unix::fs::symlink("/dev/null", &final_path).unwrap();
+            }
+            "dangling" => {
+                std::fs::create_dir_all(&leaf_dir).unwrap();
+                let _ = std::os::unix::fs::symlink("does-not-exist", &final_path);
+            }
+            _ => {}
+        }
+    }
+    if c.pre == "local" {
+        let p = d.local.join(m.cache_rel);
+        std::fs::create_dir_all(p.parent().unwrap()).unwrap();
+        std::fs::write(&p, pre_bytes("valid", m)).unwrap();
+    }
+    match c.fs.as_str() {
+        "rotmp" => {
+            let _ = std::fs::set_permissions(&d.tmp, std::fs::Permissions::from_mode(0o555));
+        }
+        "rocache" => {
+            let _ = std::fs::set_permissions(&d.cache, std::fs::Permissions::from_mode(0o555));
+        }
+        "roleaf" => {
+            std::fs::create_dir_all(&leaf_dir).unwrap();
+            let _ = std::fs::set_permissions(&leaf_dir, std::fs::Permissions::from_mode(0o555));
+        }
+        _ => {}
+    }
+    d
+}
+
+// ------------------------------------------------------------------------------------------ one run
+
+fn class_of(r: &Result<breakpad_symbols::LocateSymbolsResult, SymbolError>, port: Origin) -> String {
+    match r {
+        Ok(l) => format!("ok:{}", l.symbols.url.as_deref().map(|u| canon_str(u, port)).unwrap_or("-".into())),
+        Err(SymbolError::NotFound) => "notfound".into(),
+        Err(SymbolError::ParseError(..)) => "parse-error".into(),
+        Err(SymbolError::LoadError(_)) => "load-error".into(),
+        Err(SymbolError::MissingDebugFileOrId) => "missing".into(),
+    }
+}
+
+#[derive(Default)]
+struct RunObs {
+    /// per task: result class, `dropped`, or `PANIC`
+    results: Vec<String>,
+    /// per task: the symbol table of an `Ok` result
+    tables: Vec<Option<SymbolFile>>,
+    /// per task: server indices requested, in order
+    reqs: Vec<Vec<usize>>,
+    /// raw request targets
+    raw_log: Vec<String>,
+    polls: usize,
+    before: BTreeMap<String, String>,
+    after_cache: BTreeMap<String, String>,
+    after_tmp: BTreeMap<String, String>,
+    node: String,
+    second: String,
+    second_table: Option<SymbolFile>,
+    port: Origin,
+    /// violations seen while the future was in flight: (class, detail)
+    midflight: Vec<(String, String)>,
+    /// real request URLs (with the real port) per (task, server)
+    bodies: Vec<Vec<u8>>,
+}
+
+struct Prepared {
+    bodies: Vec<Vec<u8>>,
+    pieces: Vec<Vec<Vec<u8>>>,
+}
+
+fn prepare(c: &Case, m: &Mod) -> Option<Prepared> {
+    let mut bodies = vec![];
+    let mut ps = vec![];
+    for r in &c.resps {
+        let b = body_bytes(&r.body, m)?;
+        ps.push(pieces(&b, r.cut, &r.split));
+        bodies.push(b);
+    }
+    Some(Prepared { bodies, pieces: ps })
+}
+
+/// the body a client sees as complete for this response (`close` framing: whatever arrived)
+fn effective_body(r: &RespSpec, body: &[u8]) -> Option<Vec<u8>> {
+    if r.status >= 400 {
+        return None;
+    }
+    match (r.cut, r.framing) {
+        (None, _) => Some(body.to_vec()),
+        (Some(k), Framing::Close) => Some(body[..k.min(body.len())].to_vec()),
+        (Some(k), _) if k >= body.len() && r.framing == Framing::Len => Some(body.to_vec()),
+        _ => None,
+    }
+}
+
+fn check_midflight(obs: &mut RunObs, d: &Dirs, prep: &Prepared, at: &str) {
+    let now = tree(&d.cache, obs.port);
+    if now != obs.before {
+        obs.midflight.push((
+            "partial-file-visible-in-cache".into(),
+            format!("{at}: cache tree while the download is in flight {:?} differs from the initial tree {:?}", now, obs.before),
+        ));
+    }
+    if let Ok(rd) = std::fs::read_dir(&d.tmp) {
+        for e in rd.filter_map(|e| e.ok()) {
+            if let Ok(b) = std::fs::read(e.path()) {
+                if !prep.bodies.iter().any(|body| body.starts_with(&b)) {
+                    obs.midflight.push((
+                        "temp-file-not-a-prefix-of-the-body".into(),
+                        format!("{at}: temp file {:?} holds {} bytes that are not a prefix of any served body", e.file_name(), b.len()),
+                    ));
+                }
+            }
+        }
+    }
+}
+
+/// Run the scenario once. `drop_at = Some(k)`: the (single) future is dropped after `k` polls.
+fn run_once(c: &Case, m: &Mod, prep: &Prepared, drop_at: Option<usize>) -> RunObs {
+    let d = setup_dirs(c, m);
+    let gate = Arc::new(AtomicBool::new(false));
+    let server = worker_server();
+    let rid = COUNTER.fetch_add(1, Ordering::Relaxed);
+    for (i, r) in c.resps.iter().enumerate() {
+        let prefix = if c.race { format!("r{rid}t{i}s0") } else { format!("r{rid}s{i}") };
+        server.shared.scripts.lock().unwrap().insert(
+            prefix,
+            Arc::new(Script {
+                status: r.status,
+                framing: r.framing,
+                full_len: prep.bodies[i].len(),
+                cut: r.cut.is_some() && !(r.framing == Framing::Len && r.cut.unwrap() >= prep.bodies[i].len()),
+                pace_us: r.pace_us,
+                pieces: prep.pieces[i].clone(),
+                gate: if c.race && i == 1 { Some(gate.clone()) } else { None },
+            }),
+        );
+    }
+    let port = Origin { port: server.port, rid };
+    let mut obs = RunObs { port, bodies: prep.bodies.clone(), ..Default::default() };
+    obs.before = tree(&d.cache, port);
+    let ntasks = if c.race { 2 } else { 1 };
+    let urls_of = |t: usize| -> Vec<String> {
+        if c.race {
+            vec![format!("http://127.0.0.1:{}/r{rid}t{t}s0/", server.port)]
+        } else {
+            (0..c.resps.len()).map(|i| format!("http://127.0.0.1:{}/r{rid}s{i}", server.port)).collect()
+        }
+    };
+    let local_paths = if c.pre == "local" { vec![d.local.clone()] } else { vec![] };
+    let md = module(m);
+    let rt = tokio::runtime::Builder::new_current_thread().enable_all().build().unwrap();
+    let suppliers: Vec<HttpSymbolSupplier> = (0..ntasks)
+        .map(|t| {
+            let _g = rt.enter();
+            HttpSymbolSupplier::new(urls_of(t), d.cache.clone(), d.tmp.clone(), local_paths.clone(), Duration::from_secs(30))
+        })
+        .collect();
+    obs.results = vec![String::new(); ntasks];
+    obs.tables = (0..ntasks).map(|_| None).collect();
+
+    type Fut<'a> = Pin<Box<dyn Future<Output = Result<breakpad_symbols::LocateSymbolsResult, SymbolError>> + Send + 'a>>;
+    let caught = catch(|| {
+        if !c.race {
+            let kind = match c.file.as_str() {
+                "bin" => Some(breakpad_symbols::FileKind::Binary),
+                "pdb" => Some(breakpad_symbols::FileKind::ExtraDebugInfo),
+                _ => None,
+            };
+            let file_result: Arc<Mutex<Option<String>>> = Arc::new(Mutex::new(None));
+            let file_result_ref = file_result.clone();
+            let sup0 = &suppliers[0];
+            let md_ref = &md;
+            let mut fut: Option<Fut> = Some(match kind {
+                None => sup0.locate_symbols(md_ref),
+                // the opaque download: map its result into the same type (Ok is reported through `file_result`)
+                Some(k) => Box::pin(async move {
+                    match sup0.locate_file(md_ref, k).await {
+                        Ok(_path) => {
+                            *file_result_ref.lock().unwrap() = Some("found".into());
+                            Err(SymbolError::MissingDebugFileOrId)
+                        }
+                        Err(_) => Err(SymbolError::NotFound),
+                    }
+                }),
+            });
+            let mut polls = 0usize;
+            let res = rt.block_on(std::future::poll_fn(|cx| {
+                if drop_at == Some(polls) {
+                    return Poll::Ready(None);
+                }
+                polls += 1;
+                match fut.as_mut().unwrap().as_mut().poll(cx) {
+                    Poll::Ready(r) => Poll::Ready(Some(r)),
+                    Poll::Pending => {
+                        // the future is suspended: nothing partial may be visible in the cache
+                        if obs.midflight.len() < 4 {
+                            check_midflight(&mut obs, &d, prep, &format!("suspended after poll {polls}"));
+                        }
+                        Poll::Pending
+                    }
+                }
+            }));
+            obs.polls = polls;
+            match res {
+                None => {
+                    drop(fut.take());
+                    // let the runtime turn once more: nothing left behind may touch the directories
+                    rt.block_on(async {
+                        tokio::task::yield_now().await;
+                        tokio::time::sleep(Duration::from_micros(300)).await;
+                    });
+                    obs.results[0] = "dropped".into();
+                }
+                Some(r) => {
+                    drop(fut.take());
+                    obs.results[0] = match file_result.lock().unwrap().take() {
+                        Some(f) => f,
+                        None => class_of(&r, port),
+                    };
+                    if let Ok(l) = r {
+                        obs.tables[0] = Some(l.symbols);
+                    }
+                }
+            }
+        } else {
+            // task 1 first: poll it until its request has reached the server (so its cache lookup is over),
+            // then task 0 runs to completion, then the gate opens and task 1 finishes.
+            let mut f1: Fut = suppliers[1].locate_symbols(&md);
+            let mut f0: Fut = suppliers[0].locate_symbols(&md);
+            let early = rt.block_on(async {
+                let t0 = std::time::Instant::now();
+                loop {
+                    let r = std::future::poll_fn(|cx| match f1.as_mut().poll(cx) {
+                        Poll::Ready(r) => Poll::Ready(Some(r)),
+                        Poll::Pending => Poll::Ready(None),
+                    })
+                    .await;
+                    if r.is_some() {
+                        return r;
+                    }
+                    if server.log_of(rid).iter().any(|t| t.starts_with("/t1s0/")) || t0.elapsed() > Duration::from_secs(20) {
+                        return None;
+                    }
+                    tokio::time::sleep(Duration::from_micros(200)).await;
+                }
+            });
+            let r0 = rt.block_on(&mut f0);
+            gate.store(true, Ordering::SeqCst);
+            let r1 = match early {
+                Some(r) => r,
+                None => rt.block_on(&mut f1),
+            };
+            for (t, r) in [(0, r0), (1, r1)] {
+                obs.results[t] = class_of(&r, port);
+                if let Ok(l) = r {
+                    obs.tables[t] = Some(l.symbols);
+                }
+            }
+        }
+    });
+    if let Err(msg) = caught {
+        for r in obs.results.iter_mut() {
+            if r.is_empty() {
+                *r = "PANIC".into();
+            }
+        }
+        obs.midflight.push(("panic".into(), msg));
+    }
+    drop(suppliers);
+    drop(rt);
+    obs.after_cache = tree(&d.cache, port);
+    obs.after_tmp = tree(&d.tmp, port);
+    obs.node = if c.fs == "cachefile" || c.fs == "subfile" { "none".into() } else { node_at(&d.cache.join(rels(m, &c.file).0), port) };
+    obs.raw_log = server.log_of(rid);
+    obs.reqs = vec![vec![]; ntasks];
+    for t in &obs.raw_log {
+        let seg = t.trim_start_matches('/').split('/').next().unwrap_or("");
+        if c.race {
+            if let Some(rest) = seg.strip_prefix('t') {
+                if let Some((task, _)) = rest.split_once('s') {
+                    if let Ok(task) = task.parse::<usize>() {
+                        if task < ntasks {
+                            obs.reqs[task].push(0);
+                        }
+                    }
+                }
+            }
+        } else if let Some(i) = seg.strip_prefix('s').and_then(|i| i.parse::<usize>().ok()) {
+            obs.reqs[0].push(i);
+        }
+        // the request target must be the expected path + query
+        let expect_tail = format!("/{}", rels(m, &c.file).1);
+        if !t.ends_with(&expect_tail) {
+            obs.midflight.push(("unexpected-request-target".into(), format!("requested {t:?}, expected …{expect_tail:?}")));
+        }
+    }
+    // a second supplier without any URL: what does the cache serve now?
+    let r2 = catch(|| {
+        let rt = tokio::runtime::Builder::new_current_thread().enable_all().build().unwrap();
+        let s2 = {
+            let _g = rt.enter();
+            HttpSymbolSupplier::new(vec![], d.cache.clone(), d.tmp.clone(), vec![], Duration::from_secs(1))
+        };
+        let r = rt.block_on(s2.locate_symbols(&md));
+        r
+    });
+    match r2 {
+        Ok(r) => {
+            obs.second = class_of(&r, port);
+            if let Ok(l) = r {
+                obs.second_table = Some(l.symbols);
+            }
+        }
+        Err(msg) => {
+            obs.second = "PANIC".into();
+            obs.midflight.push(("panic".into(), format!("second lookup: {msg}")));
+        }
+    }
+    server.forget(rid);
+    drop(d);
+    obs
+}
+
+fn same_table(a: &SymbolFile, b: &SymbolFile) -> bool {
+    // everything but the URL (compared separately)
+    a.module_id == b.module_id
+        && a.debug_file == b.debug_file
+        && a.files == b.files
+        && a.publics == b.publics
+        && a.functions == b.functions
+        && a.inline_origins == b.inline_origins
+        && a.cfi_stack_info == b.cfi_stack_info
+        && a.win_stack_framedata_info == b.win_stack_framedata_info
+        && a.win_stack_fpo_info == b.win_stack_fpo_info
+}
+
+/// the opaque download path (`locate_file` → `fetch_lookup`): an entry is exactly a completely served body
+fn oracle_file(c: &Case, m: &Mod, prep: &Prepared, obs: &RunObs, what: &str, out: &mut Vec<(String, String)>) {
+    if !obs.after_tmp.is_empty() {
+        out.push(("stray-temp-file".into(), format!("{what}: tmp directory holds {:?}", obs.after_tmp)));
+    }
+    let expected_path = rels(m, &c.file).0;
+    for (p, desc) in &obs.after_cache {
+        if obs.before.get(p) == Some(desc) {
+            continue;
+        }
+        if *p != expected_path {
+            out.push(("unexpected-cache-entry".into(), format!("{what}: {p} = {desc} appeared below the cache directory")));
+            continue;
+        }
+        if obs.results[0] != "found" {
+            out.push(("failed-download-left-cache-entry".into(), format!("{what}: result {:?} but {p} = {desc}", obs.results)));
+            continue;
+        }
+        let ok = c.resps.iter().enumerate().any(|(i, r)| {
+            effective_body(r, &prep.bodies[i]).map(|b| {
+                let b = canon(&b, obs.port);
+                *desc == format!("file:{:016x}:{}", fnv64(&b), b.len())
+            }) == Some(true)
+        });
+        if !ok {
+            out.push(("file-entry-not-a-complete-body".into(), format!("{what}: {p} = {desc} is not a completely served body")));
+        }
+    }
+    for (p, desc) in &obs.before {
+        if !obs.after_cache.contains_key(p) && obs.results[0] != "found" {
+            out.push(("failed-download-removed-cache-entry".into(), format!("{what}: {p} = {desc} vanished, result {:?}", obs.results)));
+        }
+    }
+    if obs.results[0] == "found" && !obs.node.starts_with("file:") {
+        out.push(("found-without-file".into(), format!("{what}: locate_file returned a path but the cache has {}", obs.node)));
+    }
+}
+
+/// the property's oracle on one finished run (implementation only)
+fn oracle(c: &Case, m: &Mod, prep: &Prepared, obs: &RunObs, what: &str, out: &mut Vec<(String, String)>) {
+    for (cl, d) in &obs.midflight {
+        out.push((cl.clone(), format!("{what}: {d}")));
+    }
+    if c.file != "sym" {
+        return oracle_file(c, m, prep, obs, what, out);
+    }
+    // stray temporary files
+    if !obs.after_tmp.is_empty() {
+        out.push(("stray-temp-file".into(), format!("{what}: tmp directory holds {:?}", obs.after_tmp)));
+    }
+    let downloaded: Vec<usize> = (0..obs.results.len()).filter(|&t| obs.results[t].starts_with("ok:") && !obs.reqs[t].is_empty()).collect();
+    // every new or changed file below the cache directory
+    let expected_path = m.cache_rel.to_string();
+    for (p, desc) in &obs.after_cache {
+        if obs.before.get(p) == Some(desc) {
+            continue;
+        }
+        if *p != expected_path {
+            out.push(("unexpected-cache-entry".into(), format!("{what}: {p} = {desc} appeared below the cache directory")));
+            continue;
+        }
+        if downloaded.is_empty() {
+            out.push((
+                "failed-download-left-cache-entry".into(),
+                format!("{what}: results {:?} but {p} = {desc} (before: {:?})", obs.results, obs.before.get(p)),
+            ));
+            continue;
+        }
+        // must be `body ++ INFO URL <url>\n` for a completely served body and the URL it was requested at
+        let mut matched = false;
+        for (i, r) in c.resps.iter().enumerate() {
+            if let Some(body) = effective_body(r, &prep.bodies[i]) {
+                let url = if c.race { format!("http://HOST/t{i}s0/{}", m.server_rel) } else { format!("http://HOST/s{i}/{}", m.server_rel) };
+                let mut want = canon(&body, obs.port);
+                want.extend_from_slice(format!("INFO URL {url}\n").as_bytes());
+                if *desc == format!("file:{:016x}:{}", fnv64(&want), want.len()) {
+                    matched = true;
+                    if SymbolFile::from_bytes(&want).is_err() {
+                        out.push(("cache-entry-unparseable".into(), format!("{what}: {p} does not parse")));
+                    }
+                }
+            }
+        }
+        if !matched {
+            out.push((
+                "cache-entry-not-body-plus-url".into(),
+                format!("{what}: {p} = {desc} is not <a completely served body> ++ \"INFO URL <request url>\\n\""),
+            ));
+        }
+    }
+    // entries that disappeared
+    for (p, desc) in &obs.before {
+        if !obs.after_cache.contains_key(p) && downloaded.is_empty() {
+            out.push(("failed-download-removed-cache-entry".into(), format!("{what}: {p} = {desc} vanished, results {:?}", obs.results)));
+        }
+    }
+    // a later lookup without network yields the same table and URL
+    if let Some(&t) = downloaded.last() {
+        if obs.node.starts_with("file:") && obs.before.get(&expected_path) != obs.after_cache.get(&expected_path) {
+            let winner = t; // the last call that committed
+            match (&obs.tables[winner], &obs.second_table) {
+                (Some(a), Some(b)) => {
+                    if !same_table(a, b) {
+                        out.push(("cached-table-differs-from-original".into(), format!("{what}: table served from the cache differs from the downloaded one")));
+                    }
+                    let ua = a.url.as_deref().map(|u| canon_str(u, obs.port));
+                    let ub = b.url.as_deref().map(|u| canon_str(u, obs.port));
+                    if ua != ub {
+                        let ri = if c.race { winner } else { obs.reqs[0].last().copied().unwrap_or(0).min(c.resps.len() - 1) };
+                        let body_ends_nl = effective_body(&c.resps[ri], &prep.bodies[ri]).map(|b| b.last() == Some(&b'\n')).unwrap_or(true);
+                        let class = if body_ends_nl { "cached-url-differs-from-original" } else { "cached-url-lost-behind-unterminated-overlong-line" };
+                        out.push((class.into(), format!("{what}: downloaded url {ua:?}, from cache {ub:?}")));
+                    }
+                }
+                _ => out.push(("cached-lookup-fails".into(), format!("{what}: download gave {:?}, the cache then serves {:?}", obs.results, obs.second))),
+            }
+        }
+    }
+}
+
+fn canonical(obs: &RunObs, drops: &str) -> String {
+    let reqs: Vec<String> = obs
+        .reqs
+        .iter()
+        .map(|l| if l.is_empty() { "-".to_string() } else { l.iter().map(|i| i.to_string()).collect::<Vec<_>>().join(",") })
+        .collect();
+    format!(
+        "cache:{} tmp:{} r:{} req:{} second:{} drops:{}",
+        obs.node,
+        obs.after_tmp.len(),
+        obs.results.join(";"),
+        reqs.join(";"),
+        obs.second,
+        drops
+    )
+}
+
+// ------------------------------------------------------------------------------------------ model request
+
+fn initial_node(c: &Case, m: &Mod) -> String {
+    if c.fs == "cachefile" || c.fs == "subfile" {
+        return "none".into();
+    }
+    match c.pre.as_str() {
+        "valid" | "validurl" | "corrupt" | "trunc" => format!("file:{}", hex(&pre_bytes(&c.pre, m))),
+        "dir" => "dir".into(),
+        "special" => "special".into(),
+        "dangling" => "dangling".into(),
+        _ => "none".into(),
+    }
+}
+
+fn build_model_request(c: &Case, m: &Mod, prep: &Prepared) -> String {
+    let create_ok = !matches!(c.fs.as_str(), "tmpmissing" | "cachefile" | "subfile" | "rotmp" | "rocache");
+    let persist_ok = c.fs != "roleaf";
+    let mut evs: Vec<String> = vec![];
+    let resp_events = |task: usize, idx: usize, i: usize, evs: &mut Vec<String>| {
+        let r = &c.resps[i];
+        evs.push(format!("{task}S{}:{}@{idx}", r.status, if create_ok { 1 } else { 0 }));
+        if r.status >= 400 {
+            return;
+        }
+        for p in &prep.pieces[i] {
+            evs.push(format!("{task}C{}:1@{idx}", hex(p)));
+        }
+        let complete = effective_body(r, &prep.bodies[i]).is_some();
+        if complete {
+            evs.push(format!("{task}E11{}{}@{idx}", 1, if persist_ok { 1 } else { 0 }));
+        } else {
+            evs.push(format!("{task}N@{idx}"));
+        }
+    };
+    if c.race {
+        evs.push("1L".into());
+        evs.push("0L".into());
+        resp_events(0, 0, 0, &mut evs);
+        resp_events(1, 0, 1, &mut evs);
+    } else {
+        evs.push("0L".into());
+        for i in 0..c.resps.len() {
+            resp_events(0, i, i, &mut evs);
+        }
+    }
+    let url = |prefix: String| hex(format!("http://HOST/{prefix}/{}", m.server_rel).as_bytes());
+    let tasks: Vec<String> = if c.race {
+        vec![format!("t:{}", url("t0s0".into())), format!("t:{}", url("t1s0".into()))]
+    } else if c.resps.is_empty() {
+        vec!["t:none".into()]
+    } else {
+        vec![format!("t:{}", (0..c.resps.len()).map(|i| url(format!("s{i}"))).collect::<Vec<_>>().join(";"))]
+    };
+    format!(
+        "cache p:{} n:{} l:{} e:{} d:{} {}",
+        hex(m.cache_rel.as_bytes()),
+        initial_node(c, m),
+        if c.pre == "local" { hex(&pre_bytes("valid", m)) } else { "none".into() },
+        evs.join(","),
+        if c.drop == "-" { 0 } else { 1 },
+        tasks.join(" ")
+    )
+}
+
+/// bodies with a line the toy parser of the model has no counterpart for (the real parser's
+/// over-long-line recovery, C09's subject): such cases are checked by the oracle only
+fn outside_model(c: &Case) -> bool {
+    c.resps.iter().any(|r| {
+        r.body.split('+').any(|p| {
+            (p.starts_with('L') || p.starts_with('M')) && p[1..].parse::<usize>().map(|k| k > 70000).unwrap_or(false)
+        })
+    })
+}
+
+struct DoneGuard(std::sync::mpsc::Sender<()>);
+impl Drop for DoneGuard {
+    fn drop(&mut self) {
+        let _ = self.0.send(());
+    }
+}
+
+fn skipped_for_root(c: &Case) -> bool {
+    c.fs.starts_with("ro") && !permissions_bite()
+}
+
+// ------------------------------------------------------------------------------------------ engine
+
+fn resp_gen(rng: &mut Rng, kind: &str, big: bool) -> RespSpec {
+    let n = if big { rng.range(300, 900) } else { rng.range(1, 40) };
+    let seed = rng.below(100000);
+    let mut body = format!("g{seed}.{n}");
+    if rng.chance(1, 5) {
+        body.push_str("+u");
+    }
+    if rng.chance(1, 5) {
+        body.push_str("+o");
+    }
+    let framing = *rng.pick(&[Framing::Len, Framing::Chunked, Framing::Close]);
+    let split = match rng.below(4) {
+        0 => "w".to_string(),
+        1 => "l".to_string(),
+        _ => format!("s{}", rng.below(100000)),
+    };
+    let pace = *rng.pick(&[0u64, 0, 0, 50, 300]);
+    let mut r = RespSpec { status: *rng.pick(&[200u16, 200, 200, 203]), framing, cut: None, pace_us: pace, split, body };
+    match kind {
+        "ok" => {}
+        "status" => r.status = *rng.pick(&[404u16, 404, 403, 410, 500, 503]),
+        "corrupt" => r.body.push_str(&format!("+c{}", rng.below(n + 1))),
+        "unterminated" => r.body.push_str("+t"),
+        "empty" => r.body = "e".into(),
+        "cut" => {
+            // cut at an arbitrary byte, or exactly at a line boundary (the interesting case: the prefix parses)
+            let len = 40 * n; // rough; clamped when the pieces are made
+            r.cut = Some(rng.below(len + 1) as usize);
+        }
+        _ => {}
+    }
+    r
+}
 
 impl Engine for Cache {
     fn name(&self) -> &'static str {
         "cache"
     }
     fn rule(&self) -> String {
-        "not implemented".into()
+        "case = module x pre-existing cache state (none, valid with/without URL note, corrupt, unterminated, directory, socket, dangling symlink, file in a local symbol path) x directory fault (tmp missing, cache root or sub-directory is a file; chmod modes skipped as root) x per-server scripted responses (200/203 with Content-Length / chunked / close-delimited bodies split whole, by line or at random points, with and without pacing; 403/404/410/500/503; body cut after k bytes, k arbitrary or on a line boundary; body unparseable at line j; unterminated last line; empty body; body with its own INFO URL line; body ending in an open FUNC) x drop point (none, every poll boundary in turn) + two racing calls for the same module. The real HttpSymbolSupplier::locate_symbols runs against a loopback server; cache/tmp trees, result class, SymbolFile.url, request log and a second network-less lookup are compared with the Lean model; the oracle checks every cache file = served body ++ INFO URL line and parses, nothing partial is visible while in flight, failures/drops leave nothing, cached lookup = original table and URL. non-trivial = at least one HTTP request reached the server; distinct = distinct case line".into()
     }
-    fn generate(&self, _tier: Tier, _rng: &mut Rng, _emit: &mut dyn FnMut(String)) {}
-    fn exec(&self, _case: &str) -> ImplResult {
-        ImplResult::default()
+    fn exhaustive_part(&self) -> Option<String> {
+        Some("for `drop:all` cases: every poll boundary of the locate_symbols future (the future is re-run and dropped after k polls for each k below the poll count of the completed run)".into())
+    }
+
+    fn generate(&self, tier: Tier, rng: &mut Rng, emit: &mut dyn FnMut(String)) {
+        let quick = tier == Tier::Quick;
+        let mk = |m: u64, pre: &str, fs: &str, resps: Vec<RespSpec>, drop: &str, race: bool| {
+            show_case(&Case { m: m as usize, pre: pre.into(), fs: fs.into(), resps, drop: drop.into(), race, file: "sym".into() })
+        };
+        // 1. single server, every response kind, run to completion and dropped at every poll boundary
+        let kinds = ["ok", "ok", "status", "corrupt", "unterminated", "empty", "cut", "cut"];
+        let rounds = if quick { 60 } else { 800 };
+        for round in 0..rounds {
+            for kind in kinds {
+                let r = resp_gen(rng, kind, false);
+                let drop = if round % 2 == 0 { "all" } else { "-" };
+                emit(mk(rng.below(3), "-", "-", vec![r], drop, false));
+            }
+        }
+        // 2. cut exactly on line boundaries and one byte around them, all three framings
+        for _ in 0..(if quick { 80 } else { 1000 }) {
+            let mut r = resp_gen(rng, "ok", false);
+            let m = rng.below(3);
+            if let Some(b) = body_bytes(&r.body, &MODULES[m as usize]) {
+                let nls: Vec<usize> = b.iter().enumerate().filter(|(_, &x)| x == b'\n').map(|(i, _)| i).collect();
+                if !nls.is_empty() {
+                    let at = nls[rng.below(nls.len() as u64) as usize];
+                    let k = match rng.below(4) {
+                        0 => at,
+                        1 => at + 2,
+                        _ => at + 1,
+                    };
+                    r.cut = Some(k.min(b.len()));
+                }
+            }
+            for framing in [Framing::Len, Framing::Chunked, Framing::Close] {
+                let mut r2 = r.clone();
+                r2.framing = framing;
+                emit(mk(m, "-", "-", vec![r2], if rng.chance(1, 3) { "all" } else { "-" }, false));
+            }
+        }
+        // 3. two or three servers: the cascade (only a success stops it)
+        for _ in 0..(if quick { 300 } else { 3000 }) {
+            let n = rng.range(2, 3);
+            let mut resps = vec![];
+            for i in 0..n {
+                let kind = if i + 1 == n { *rng.pick(&["ok", "ok", "status", "corrupt", "cut"]) } else { *rng.pick(&["status", "corrupt", "cut", "unterminated", "ok", "empty"]) };
+                resps.push(resp_gen(rng, kind, false));
+            }
+            emit(mk(rng.below(3), "-", "-", resps, if rng.chance(1, 4) { "all" } else { "-" }, false));
+        }
+        // 4. pre-existing state x directory faults x response kind
+        let pres = ["valid", "validurl", "corrupt", "trunc", "dir", "special", "dangling", "local"];
+        let fss = ["tmpmissing", "cachefile", "subfile", "rotmp", "rocache", "roleaf"];
+        for pre in pres {
+            for kind in ["ok", "status", "corrupt", "cut"] {
+                let reps = if quick { 3 } else { 40 };
+                for _ in 0..reps {
+                    let r = resp_gen(rng, kind, false);
+                    emit(mk(rng.below(3), pre, "-", vec![r], if rng.chance(1, 2) { "all" } else { "-" }, false));
+                }
+            }
+        }
+        for fs in fss {
+            for kind in ["ok", "ok", "status", "corrupt", "cut"] {
+                let reps = if quick { 2 } else { 30 };
+                for _ in 0..reps {
+                    let r = resp_gen(rng, kind, false);
+                    let pre = if fs == "tmpmissing" || fs.starts_with("ro") { *rng.pick(&["-", "-", "dir", "special", "valid"]) } else { "-" };
+                    emit(mk(rng.below(3), pre, fs, vec![r], if rng.chance(1, 2) { "all" } else { "-" }, false));
+                }
+            }
+        }
+        // 5. no server configured at all
+        emit(mk(0, "-", "-", vec![], "all", false));
+        emit(mk(1, "valid", "-", vec![], "all", false));
+        // 6. two racing calls
+        for _ in 0..(if quick { 120 } else { 1000 }) {
+            let ka = *rng.pick(&["ok", "ok", "ok", "corrupt", "status"]);
+            let kb = *rng.pick(&["ok", "ok", "ok", "corrupt", "cut"]);
+            let a = resp_gen(rng, ka, false);
+            let b = resp_gen(rng, kb, false);
+            emit(mk(rng.below(3), "-", "-", vec![a, b], "-", true));
+        }
+        // 6b. very long lines: within the window (model compared), beyond it in the middle (dropped by recovery),
+        //     and beyond it as an unterminated last line (parses Ok by recovery — the cached URL note is lost)
+        for (i, tail) in ["+M40000", "+M170000", "+L170000", "+L400"].iter().enumerate() {
+            let mut r = resp_gen(rng, "ok", false);
+            r.body = format!("g{}.{}{}", rng.below(1000), rng.range(2, 12), tail);
+            r.split = if i % 2 == 0 { "w".into() } else { format!("s{}", rng.below(1000)) };
+            emit(mk(rng.below(3), "-", "-", vec![r], "-", false));
+        }
+        // 6c. the opaque download path (binaries / pdb through locate_file → fetch_lookup): oracle only
+        for _ in 0..(if quick { 120 } else { 1200 }) {
+            let n = rng.range(1, 2);
+            let mut resps = vec![];
+            for _ in 0..n {
+                let kind = *rng.pick(&["ok", "ok", "status", "cut", "cut", "empty"]);
+                resps.push(resp_gen(rng, kind, false));
+            }
+            let pre = *rng.pick(&["-", "-", "-", "dir", "special", "dangling"]);
+            let fs = *rng.pick(&["-", "-", "-", "tmpmissing", "subfile"]);
+            let c = Case {
+                m: rng.below(2) as usize,
+                pre: pre.into(),
+                fs: fs.into(),
+                resps,
+                drop: if rng.chance(1, 2) { "all".into() } else { "-".into() },
+                race: false,
+                file: if rng.chance(2, 3) { "bin".into() } else { "pdb".into() },
+            };
+            emit(show_case(&c));
+        }
+        // 7. bodies larger than the parser's initial 10 KiB window
+        for _ in 0..(if quick { 6 } else { 120 }) {
+            let kind = *rng.pick(&["ok", "ok", "corrupt", "cut"]);
+            let mut r = resp_gen(rng, kind, true);
+            if kind == "cut" {
+                r.cut = Some(rng.range(8000, 20000) as usize);
+            }
+            emit(mk(rng.below(3), "-", "-", vec![r], if quick { "-" } else { "all" }, false));
+        }
+    }
+
+    fn model_request(&self, case: &str) -> Option<String> {
+        let c = parse_case(case)?;
+        if skipped_for_root(&c) || outside_model(&c) || c.file != "sym" {
+            // (`file:bin|pdb`: the opaque download path is not modelled — oracle only)
+            return None;
+        }
+        let m = &MODULES[c.m];
+        let prep = prepare(&c, m)?;
+        Some(build_model_request(&c, m, &prep))
+    }
+
+    fn exec(&self, case: &str) -> ImplResult {
+        // a failure of the engine's own plumbing (socket, scratch directory …) must not take the run down silently
+        match catch(|| self.exec_inner(case)) {
+            Ok(r) => r,
+            Err(msg) => {
+                let mut res = ImplResult::default();
+                res.out = "ENGINE-ERROR".into();
+                res.oracle.push(("engine-internal-error".into(), msg));
+                res
+            }
+        }
+    }
+
+    fn shrink(&self, case: &str, still_fails: &dyn Fn(&str) -> bool) -> String {
+        self.shrink_inner(case, still_fails)
+    }
+}
+
+impl Cache {
+    fn exec_inner(&self, case: &str) -> ImplResult {
+        let mut res = ImplResult::default();
+        let Some(c) = parse_case(case) else {
+            res.out = "bad-op".into();
+            return res;
+        };
+        let m = &MODULES[c.m];
+        let Some(prep) = prepare(&c, m) else {
+            res.out = "bad-op".into();
+            return res;
+        };
+        if std::env::var("CACHE_DEBUG").is_ok() {
+            for (i, b) in prep.bodies.iter().enumerate() {
+                eprintln!("--- body {i} ({} bytes) from_bytes: {:?}\n{}", b.len(), SymbolFile::from_bytes(b).map(|s| s.url), String::from_utf8_lossy(b));
+            }
+        }
+        if skipped_for_root(&c) {
+            res.out = "skipped".into();
+            res.tags.push("skipped:permissions-do-not-bite(root)".into());
+            return res;
+        }
+        res.tags.push(format!("pre:{}", c.pre));
+        res.tags.push(format!("fs:{}", c.fs));
+        res.tags.push(format!("servers:{}", c.resps.len()));
+        res.tags.push(format!("file:{}", c.file));
+        if c.race {
+            res.tags.push("race".into());
+        }
+        for r in &c.resps {
+            let kind = if r.status >= 400 {
+                "resp:error-status"
+            } else if r.cut.is_some() {
+                "resp:cut"
+            } else if r.body.contains("+c") {
+                "resp:corrupt"
+            } else if r.body.contains("+t") {
+                "resp:unterminated"
+            } else if r.body == "e" {
+                "resp:empty"
+            } else {
+                "resp:complete-valid"
+            };
+            res.tags.push(kind.into());
+            res.tags.push(format!("framing:{:?}", r.framing));
+        }
+        // a mutated implementation may block for ever (it never should): do not let the whole check hang
+        let (done_tx, done_rx) = std::sync::mpsc::channel::<()>();
+        let case_copy = case.to_string();
+        std::thread::spawn(move || {
+            if done_rx.recv_timeout(Duration::from_secs(120)).is_err() {
+                eprintln!("[cache] WATCHDOG: no result after 120 s for case: {case_copy}");
+                std::process::exit(3);
+            }
+        });
+        let _done_guard = DoneGuard(done_tx);
+        let single_drop: Option<usize> = c.drop.parse().ok();
+        let full = run_once(&c, m, &prep, None);
+        oracle(&c, m, &prep, &full, "completed run", &mut res.oracle);
+        res.nontrivial = !full.raw_log.is_empty();
+        res.tags.push(format!("result:{}", full.results.join(";").split(':').next().unwrap_or("")));
+        res.tags.push(format!("cached:{}", full.node.split(':').next().unwrap_or("")));
+        let mut drops = "-".to_string();
+        if c.drop != "-" {
+            let n = full.polls;
+            res.tags.push(format!("polls:{}", if n < 4 { n.to_string() } else if n < 8 { "4-7".into() } else if n < 16 { "8-15".into() } else if n < 32 { "16-31".into() } else { "32+".into() }));
+            let mut clean = true;
+            // every boundary below the poll count of the completed run (sampled evenly above 48)
+            let ks: Vec<usize> = match single_drop {
+                Some(k) => vec![k],
+                None if n <= 48 => (0..n).collect(),
+                None => (0..48).map(|i| i * n / 48).collect(),
+            };
+            for k in ks {
+                let o = run_once(&c, m, &prep, Some(k));
+                let mut fails = vec![];
+                oracle(&c, m, &prep, &o, &format!("dropped after {k} of {n} polls"), &mut fails);
+                if o.results[0] == "dropped" {
+                    res.tags.push("drop-point".into());
+                    if o.after_cache != o.before || !o.after_tmp.is_empty() {
+                        fails.push((
+                            "drop-left-something".into(),
+                            format!("dropped after {k} polls: cache {:?} (before {:?}), tmp {:?}", o.after_cache, o.before, o.after_tmp),
+                        ));
+                    }
+                } else if canonical(&o, "-") != canonical(&full, "-") {
+                    // the re-run completed within k polls: it must then agree with the completed run
+                    fails.push(("rerun-differs".into(), format!("re-run completing in {} polls gives {} instead of {}", o.polls, canonical(&o, "-"), canonical(&full, "-"))));
+                }
+                if !fails.is_empty() {
+                    clean = false;
+                }
+                res.oracle.extend(fails);
+            }
+            drops = if clean { "clean".into() } else { "dirty".into() };
+        }
+        res.out = canonical(&full, &drops);
+        res
+    }
+
+    fn shrink_inner(&self, case: &str, still_fails: &dyn Fn(&str) -> bool) -> String {
+        let Some(mut best) = parse_case(case) else { return case.to_string() };
+        let try_ = |cand: &Case, best: &mut Case| -> bool {
+            let line = show_case(cand);
+            if parse_case(&line).is_some() && still_fails(&line) {
+                *best = cand.clone();
+                true
+            } else {
+                false
+            }
+        };
+        // fewer servers
+        let mut progress = true;
+        while progress {
+            progress = false;
+            if !best.race && best.resps.len() > 1 {
+                for i in 0..best.resps.len() {
+                    let mut c = best.clone();
+                    c.resps.remove(i);
+                    if try_(&c, &mut best) {
+                        progress = true;
+                        break;
+                    }
+                }
+            }
+        }
+        // simpler responses
+        for i in 0..best.resps.len() {
+            let mut c = best.clone();
+            c.resps[i].pace_us = 0;
+            try_(&c, &mut best);
+            let mut c = best.clone();
+            c.resps[i].split = "w".into();
+            try_(&c, &mut best);
+            let mut c = best.clone();
+            c.resps[i].framing = Framing::Len;
+            try_(&c, &mut best);
+            // fewer lines
+            loop {
+                let body = best.resps[i].body.clone();
+                let Some(rest) = body.strip_prefix('g') else { break };
+                let (head, tail) = match rest.find('+') {
+                    Some(p) => (&rest[..p], &rest[p..]),
+                    None => (rest, ""),
+                };
+                let Some((seed, n)) = head.split_once('.') else { break };
+                let n: usize = n.parse().unwrap_or(1);
+                if n <= 1 {
+                    break;
+                }
+                let mut c = best.clone();
+                c.resps[i].body = format!("g{seed}.{}{tail}", n / 2);
+                if !try_(&c, &mut best) {
+                    break;
+                }
+            }
+        }
+        if best.drop == "all" {
+            let mut c = best.clone();
+            c.drop = "-".into();
+            try_(&c, &mut best);
+        }
+        if best.pre != "-" {
+            let mut c = best.clone();
+            c.pre = "-".into();
+            try_(&c, &mut best);
+        }
+        if best.fs != "-" {
+            let mut c = best.clone();
+            c.fs = "-".into();
+            try_(&c, &mut best);
+        }
+        show_case(&best)
     }
 }
